@@ -22,7 +22,10 @@ from ..oracles import ctf_sets as S
 from ..oracles import ctf_fscm as F
 
 PROP = "C19"
-RULE = ("structured families first: (1) chains of length 3-4 with every set of shortcut edges and at most one bidirected edge x "
+RULE = ("[fifth round, gap review: + a WIDE-QUERY stream - factorisation of 4-5 items over distinct vertices of 5-6 node "
+        "graphs, mostly base values so that the value oracle judges - and a CHAIN-DISTRICT stream - a district A <-> B <-> C "
+        "(<-> D) that is not a bidirected clique inside An(query), every chain vertex an ancestor of the query; seed C19e] "
+        "structured families first: (1) chains of length 3-4 with every set of shortcut edges and at most one bidirected edge x "
         "every variable Y_S with S a set of earlier vertices (nested subscripts: one intervened vertex reaches Y only through "
         "another) through ancestors / minimize / ancestral components / factorisation; (2) a subscript that fixes a direct "
         "parent to the STARRED value (Y @ +X, X -> Y) through conversion, ctf-factor test, both grouping functions, "
